@@ -26,8 +26,12 @@ theorem ASim.restrict {u₁ u₂ : St} (h : ASim P u₁ u₂) (N G : Nat) (hN : 
     (hcl : ∀ j g, G ≤ j → u₁.groups[j]? = some g → (∀ i ∈ gnodes g, N ≤ i) ∧ (∀ x ∈ grefs g, G ≤ x)) :
     ASim (P.restrict N G u₁ u₂) u₁ u₂ := by
   constructor
-  · exact h.noArgs
-  · exact h.testTypes
+  · exact h.na₁
+  · exact h.na₂
+  · exact h.nt₁
+  · exact h.nt₂
+  · exact ⟨Nat.le_refl _, Nat.le_refl _, Nat.le_refl _⟩
+  · exact ⟨Nat.le_refl _, Nat.le_refl _, Nat.le_refl _⟩
   · exact h.idsync
   · exact h.nsync
   · exact h.gsync
@@ -68,8 +72,14 @@ theorem ASim.glue (ok : P.Ok) {u₁ u₂ v₁ v₂ : St} (h : ASim P u₁ u₂) 
   have fg2 : ∀ j, j < G → v₂.groups[P.γ j]? = u₂.groups[P.γ j]? := fun j hj =>
     h'.fr2g (P.γ j) (fun j' hd e => by have := ok.hγ e; have := hd.2; omega)
   constructor
-  · exact h'.noArgs
-  · exact h'.testTypes
+  · exact h'.na₁
+  · exact h'.na₂
+  · exact h'.nt₁
+  · exact h'.nt₂
+  · have a := h.mono₁; have b := h'.mono₁
+    exact ⟨Nat.le_trans a.1 b.1, Nat.le_trans a.2.1 b.2.1, Nat.le_trans a.2.2 b.2.2⟩
+  · have a := h.mono₂; have b := h'.mono₂
+    exact ⟨Nat.le_trans a.1 b.1, Nat.le_trans a.2.1 b.2.1, Nat.le_trans a.2.2 b.2.2⟩
   · exact h'.idsync
   · exact h'.nsync
   · exact h'.gsync
